@@ -68,7 +68,24 @@ def one_trace(rng, tid, prop):
         nd = len(shape)
         c = rng.random()
         sp = rng.choice(["numpoly", "numpy"])
-        if c < 0.3:
+        if c < 0.08:
+            # isclose / allclose with explicit tolerances on operands that differ by small amounts
+            fn = rng.choice(["isclose", "allclose"])
+            size = int(numpy.prod(shape, dtype=int))
+            base = [rng.choice([-2.0, -0.5, 0.0, 1.0, 1.5, 100.0]) for _ in range(size)]
+            delta = [rng.choice([0.0, 0.0, 1e-9, 0.05, -0.05, 0.5]) for _ in range(size)]
+            mk = lambda v: build_poly({"shape": list(shape), "names": [0], "rows": [[0]], "coefs": [v], "dtype": "float64"})  # noqa: E731
+            a = rec.new(mk(base))
+            b = rec.new(mk([x + d for x, d in zip(base, delta)]))
+            p = {}
+            if rng.random() < 0.7:
+                p["rtol"] = rng.choice([0.0, 1e-5, 0.01])
+            if rng.random() < 0.7:
+                p["atol"] = rng.choice([0.0, 1e-8, 0.1])
+            if rng.random() < 0.3:
+                p["equal_nan"] = True
+            rec.do("constfn", [a, b], keep=False, fn=fn, p=p, spelling=sp, index_result=True, np=[], np_out="ret")
+        elif c < 0.3:
             fn = rng.choice(UNARY)
             a = rec.new(const_poly(rng, shape, kind))
             p = {}
